@@ -609,7 +609,7 @@ func OpenDiscard(path string, key tink.AEAD) (*db.DB, error) {
 // ---------------------------------------------------------------- generators
 
 var BaseNames = []string{"a", "b", "dev/c"}
-var OddNames = []string{"", "_internal/x", "a ", " dev/c", "_internal/a"}
+var OddNames = []string{"", "_internal/x", "a ", " dev/c", "_internal/a", "_internal", "_internalx"}
 var ValuePool = [][]byte{{}, []byte("x"), []byte("y"), []byte("zz"), nil, []byte(" "), []byte("x\n"), []byte("x")}
 var vsels = []string{"zero", "active", "latest", "next", "existing", "existing", "deleted", "huge", "abs"}
 var opKindsMut = []string{"put", "put", "put", "activate", "activate", "delver", "delver", "del", "get", "getver", "cond", "info", "list"}
